@@ -6,11 +6,11 @@ from .. import queryh as Q
 from edgegraph.structure import Vertex
 
 W_CACHE = {"NV": 2, "NE": 3, "SV1": 3, "SV2": 3, "A2L": 1.5, "RFL": 1.5, "LAV": 1.5, "LUF": 1.5, "LFT": 2, "UNL": 2,
-           "CACHE": 2, "NU": 0.3, "UAV": 0.3}
+           "CACHE": 2, "NU": 0.3, "UAV": 0.3, "CLONE": 0.6}
 KEYS = [("Fwd", "UNb", None), ("Bwd", "UNb", None), ("AnyDir", "UErr", None), ("Fwd", "UNon", 2), ("Fwd", "UErr", None)]
 # sibling filters under ONE (direction, unknown) setting: distinct callables that share a code object (ids 0-2) or a
 # method (ids 3-4) - the memo must key on the callable's identity, nothing coarser
-SIBLINGS = [("Fwd", "UNon", 0), ("Fwd", "UNon", 1), ("AnyDir", "UNb", 3), ("AnyDir", "UNb", 4), ("AnyDir", "UNb", 2)]
+SIBLINGS = [("Fwd", "UNon", None), ("Bwd", "UNon", None), ("Bwd", "UErr", None), ("Fwd", "UNon", 0), ("Fwd", "UNon", 1), ("AnyDir", "UNb", 3), ("AnyDir", "UNb", 4), ("AnyDir", "UNb", 2)]
 KEYS = KEYS + SIBLINGS
 TRAVS = ["BFT", "DFR", "DFI"]
 
@@ -177,13 +177,15 @@ class CacheHistory(Leg):
             return None
         items = []
         for op, r in zip(case["ops"], obs):
+            if op[0] in H.INVISIBLE:
+                continue                  # no step of the model (a copy of the graph goes on answering like the original)
             out = r["out"]
             co = H.c_outcome(out) if out[0] != "list" else f"Ret (VList {H.c_oids(out[1])})"
             items.append(f"({c_cop2(op)}, ({co}, {H.c_state(r['snap'])}))")
         return C.clist(items, str)
 
     def model_value(self, case, obs):
-        return "ctranscript2 empty " + C.clist([c_cop2(o) for o in case["ops"]], str)
+        return "ctranscript2 empty " + C.clist([c_cop2(o) for o in case["ops"] if o[0] not in H.INVISIBLE], str)
 
     def nontrivial(self, case, obs):
         if obs is None:
@@ -255,6 +257,8 @@ def gen_one(rng, w, tags, wts):
         return ["UAV", pick(us), pick(vs)]
     if t == "CACHE":
         return ["CACHE", rng.random() < 0.6]
+    if t == "CLONE" and vs:
+        return ["CLONE", rng.choice(["deepcopy", "dill", "nrpickle"])]
     return None
 
 
